@@ -24,21 +24,32 @@ import (
 const roArenaBytes = 8 << 20
 
 type roArena struct {
-	mem  []byte
+	mem  []byte // the arena; the page behind it is PROT_NONE for good (guard)
 	off  int
 	ro   bool
 	full bool // an argument of this case did not fit: roSeal refuses, the case runs without protection
+	// One allocation per case ends exactly at the guard page: an access beyond the end of that argument faults (a string
+	// that is the last thing in a mapped file; round 12 seeded an 8-byte load guarded for 5 bytes). tailAt says which
+	// allocation of the case it is (0 = the first), tail is where the tail allocation begins (len(mem) while unused).
+	nalloc, tailAt, tail int
 }
 
 func roGet(w *mon.W) *roArena {
 	a, _ := w.State["roArena"].(*roArena)
 	if a == nil {
-		mem, err := syscall.Mmap(-1, 0, roArenaBytes, syscall.PROT_READ|syscall.PROT_WRITE, syscall.MAP_ANON|syscall.MAP_PRIVATE)
+		page := syscall.Getpagesize()
+		all, err := syscall.Mmap(-1, 0, roArenaBytes+page, syscall.PROT_READ|syscall.PROT_WRITE, syscall.MAP_ANON|syscall.MAP_PRIVATE)
 		if err != nil {
 			panic("harness: mmap: " + err.Error())
 		}
-		a = &roArena{mem: mem}
+		if err := syscall.Mprotect(all[roArenaBytes:], syscall.PROT_NONE); err != nil {
+			panic("harness: mprotect: " + err.Error())
+		}
+		a = &roArena{mem: all[:roArenaBytes:roArenaBytes], tail: roArenaBytes}
 		w.State["roArena"] = a
+		lo := uintptr(unsafe.Pointer(&all[0]))
+		w.ROArena = [2]uintptr{lo, lo + roArenaBytes}
+		w.ROGuard = [2]uintptr{lo + roArenaBytes, lo + roArenaBytes + uintptr(page)}
 	}
 	return a
 }
@@ -57,8 +68,19 @@ func (a *roArena) writable() {
 func roAlloc(w *mon.W, n int) []byte {
 	a := roGet(w)
 	a.writable()
+	k := a.nalloc
+	a.nalloc++
+	if k == a.tailAt && n > 0 && n+64 < a.tail-a.off && n < 1<<20 {
+		// flush against the guard page (8-byte aligned start for word slices: n is then a multiple of 8 or the slice is
+		// a byte slice / string)
+		a.tail = len(a.mem) - n
+		for i := a.tail - 32; i < a.tail; i++ {
+			a.mem[i] = poisonB
+		}
+		return a.mem[a.tail:len(a.mem):len(a.mem)]
+	}
 	start := (a.off + 32 + 15) &^ 15
-	if start+n+32 > len(a.mem) {
+	if start+n+32 > a.tail-32 {
 		a.full = true
 		return make([]byte, n+1)[:n:n]
 	}
@@ -88,6 +110,7 @@ func roSeal(w *mon.W) (func(), bool) {
 	return func() {
 		a.writable()
 		a.off = 0
+		a.nalloc, a.tail = 0, len(a.mem)
 		// w.RO stays set until the next case starts: release usually runs deferred, i.e. before runCase's recover
 	}, true
 }
@@ -98,6 +121,8 @@ func roReset(w *mon.W) {
 	a.writable()
 	a.off = 0
 	a.full = false
+	a.nalloc, a.tail = 0, len(a.mem)
+	a.tailAt = w.Idx() % 3
 	w.RO = false
 }
 
@@ -263,4 +288,21 @@ func roBBs(w *mon.W, l [][]byte) [][]byte {
 		hdr[3*i], hdr[3*i+1], hdr[3*i+2] = uintptr(unsafe.Pointer(&b[0])), uintptr(len(s)), uintptr(len(s))
 	}
 	return unsafe.Slice((*[]byte)(unsafe.Pointer(&hb[0])), len(l))
+}
+
+// roTailStr places ONE string so that its last byte is the last byte of the mapping (the next page is inaccessible):
+// a load that reaches beyond the end of the string faults instead of reading whatever lies there.
+func roTailStr(w *mon.W, s string) (string, func(), bool) {
+	if len(s) == 0 {
+		return s, func() {}, false
+	}
+	roReset(w)
+	roGet(w).tailAt = 0
+	v := roStr(w, s)
+	rel, ok := roSeal(w)
+	if !ok {
+		return s, rel, false
+	}
+	w.Bucket("string-at-the-end-of-its-mapping")
+	return v, rel, true
 }
